@@ -215,11 +215,18 @@ theorem inFlightUpd_cases (acc : List (Handle × Bytes)) (c : Call) (r : Res) :
   · cases r <;> first
       | exact .inl (List.length_filter_le _ _)
       | exact .inl (Nat.le_refl _)
+  · refine .inl ?_
+    rw [inFlightUpd_unlinkat]
+    split
+    · exact List.length_filter_le _ _
+    · split
+      · exact Nat.zero_le _
+      · exact Nat.le_refl _
 
 theorem client_upd_nil {c : Call} (h : IsClientCall c) (r : Res) : inFlightUpd [] (c, r) = [] := by
   cases c <;> first | exact h.elim | skip
   · cases r <;> rfl
-  · rfl
+  · simp [inFlightUpd_unlinkat]
 
 theorem localOK_step {ps : PState} {c : Call} {k : Res → Prog Bool} (h : LocalOK ps) (hc : ps.prog = .call c k)
     (r : Res) (hR : MoverR c r) (hs : List Obj) :
